@@ -634,6 +634,8 @@ func init() {
 			"the predicate demands only what the statement says: plasma, proof-of-work, sequencer order, send-time contract validation, and fields outside the hash that the statement does not mention (ChangesHash/BasePlasma/TotalPlasma of user blocks) are not part of it; contract blocks must be byte-identical to the block generated by Supervisor.GenerateAutoReceive in the same state",
 			"contract send blocks cannot be submitted stand-alone (rejected/skipped by type): they are exercised as the descendant of a contract receive (sentinel registration refund); mutations of the 'contract-send' candidate are applied to the descendant, sealing recomputes descendant and parent hashes, the foreign-key mode puts key and signature on the descendant",
 			"user balances of the predicate are replayed from the genesis configuration over the blocks the harness fed to the node, not read from the node",
+			"a send to an embedded contract whose call data is the canonical encoding followed by extra bytes, arriving under the hash of the canonical block, is accepted by the node as the canonical block (it rewrites Data before it checks the hash): what is judged is the block the node holds afterwards, which must be held under the hash of its own content and under the hash the candidate came with (counter accepted_as_the_canonical_call)",
+			"the reorganisation part and the schedule scenario (C14's S4, explored under this property's name) judge what the node holds afterwards: every confirmed block acknowledges a momentum on the node's chain / the pool holds no block a fresh node on the same chain refuses",
 		},
 		Run: run,
 		Finish: func(tier string, m *xs.Result, ev *xs.Evidence) {
